@@ -84,10 +84,10 @@ def structures(tier, seed):
 
     def addB(**k):
         d = dict(part="pad", axes={"X": ("center", "left")}, arr={"X": "center"}, order=None, extra=0,
-                 bw=("X",), gperiodic=True, gboundary=None, gfill=None, cboundary=None, cfill=None, canary=None)
+                 bw=("X",), gperiodic=True, gboundary=None, gfill=None, cboundary=None, cfill=None, prior=None, canary=None)
         d.update(k)
         d["sid"] = ("pad;" + ";".join(f"{kk}={json.dumps(d[kk], sort_keys=True, default=str)}" for kk in
-                                       ("axes", "arr", "order", "extra", "bw", "gperiodic", "gboundary", "gfill", "cboundary", "cfill", "canary")
+                                       ("axes", "arr", "order", "extra", "bw", "gperiodic", "gboundary", "gfill", "cboundary", "cfill", "prior", "canary")
                                        if d[kk] is not None)).replace('"', "").replace(" ", "")
         B.append(d)
     # every rule, given per call (scalar) on each position of a one-axis grid
@@ -103,6 +103,17 @@ def structures(tier, seed):
     for gb in RULES:
         addB(gboundary=gb, gfill="S")
         addB(gboundary=gb, cboundary="extend")
+    # per-call value against a different grid-level value of the same kind (both symbolic)
+    addB(cboundary="fill", cfill="S", gfill="S", gperiodic=False)
+    addB(gboundary="fill", cfill="S", gfill="S")
+    addB(gboundary="fill", cfill={"X": "S"}, gfill={"X": "S"})
+    addB(gboundary="extend", cboundary="fill", cfill="S", gfill="S")
+    addB(gboundary="fill", cboundary="periodic", gfill="S")
+    # the same resolution after earlier calls with other per-call settings on the same Grid
+    for prior in ("scalar", "mapping"):
+        addB(gperiodic=False, gfill="S", prior=prior)
+        addB(gboundary="extend", cfill={"X": "S"}, prior=prior)
+        addB(axes={"X": ("center", "left"), "Y": ("center", "outer")}, arr={"X": "center", "Y": "center"}, bw=("X", "Y"), gperiodic=False, cboundary={"Y": "periodic"}, gfill="S", prior=prior)
     # two axes: mapping spellings total / partial, widths on one or both axes, dim orders, extra dim
     two = {"X": ("center", "left"), "Y": ("center", "outer")}
     for bw in (("X",), ("Y",), ("X", "Y"), ("Y", "X")):
@@ -235,6 +246,11 @@ def pad_scenario(s, w):
     for a in s["bw"]:
         W[a] = (w.size(f"w{a}lo", 0), w.size(f"w{a}hi", 0))
     cb = dict(s["cboundary"]) if isinstance(s["cboundary"], dict) else s["cboundary"]
+    if s.get("prior"):
+        # an earlier call on the SAME Grid with other per-call settings must not influence this one
+        pf = w.real("prior_fill")
+        P.pad(da, g, boundary_width={a: (1, 1) for a in s["bw"]}, boundary={a: "extend" for a in s["bw"][:1]} if s["prior"] == "mapping" else "extend", fill_value=pf)
+        P.pad(da, g, boundary_width={a: (1, 0) for a in s["bw"]}, boundary="fill", fill_value={a: pf for a in s["bw"]})
     out = P.pad(da, g, boundary_width=dict(W), boundary=cb, fill_value=cfill)
     return dict(out=out, da=da, g=g, W=W, layout=layout, ns=ns, gfill=gfill, cfill=cfill, adims=adims, dims=dims)
 
@@ -309,7 +325,7 @@ def run_pad(s):
             return "dims"
         for d in da.dims:
             oblige(f"size:{d}", zint(out.sizes[d]) == sp["sizes"][d])
-        oblige("coords-stripped", len(out.coords) == 0, detail=str(list(out.coords)))
+        # (whether pad() strips coordinates is a mechanism - C19 states what the operations' outputs carry - not a clause here)
         got = out.elem(sp["q"])
         for name, region, val in sp["cells"]:
             oblige(name, z3.Implies(region, got == val))
@@ -434,8 +450,6 @@ def replay_pad(wit, ob):
         want = evalnum(sp["sizes"][d], subs, [])
         if d in out.sizes and out.sizes[d] != want:
             bad.append(f"size of {d}: got {out.sizes[d]} expected {want}")
-    if len(out.coords):
-        bad.append(f"coordinates not stripped: {list(out.coords)}")
     if not bad:
         bad = native_compare(sw, nw, sp["cells"], sp["q"], out)
     if bad:
